@@ -125,4 +125,108 @@ theorem C14_field_write_frame (l : List Dict) (hpos : ∀ x ∈ l, 0 < x.align) 
   rcases Nat.lt_or_gt_of_ne hij with h | h
   · right; rw [hv]; exact posList_disjoint l q i j Pi Pj di hpos h hdi hPi hPj
   · left; exact posList_disjoint l q j i Pj Pi dj hpos h hdj hPj hPi
+
+/-- the bytes at `[a, a+k)` of the result of `setFieldAt` are those of the input whenever the range does not meet the written field -/
+theorem setFieldAt_frame (ds : List Dict) (base i : Nat) (x bs : Bytes) (o : OpOut) (h : setFieldAt ds base i x bs = .ok o) :
+    ∃ d P, ds[i]? = some d ∧ (posList ds 0)[i]? = some P ∧ d.sized = some x.length ∧ o.ret = .ok ∧ o.bytes.length = bs.length ∧
+      (o.bytes.drop (base + P)).take x.length = x ∧
+      ∀ a k, (a + k ≤ base + P ∨ base + P + x.length ≤ a) → (o.bytes.drop a).take k = (bs.drop a).take k := by
+  unfold setFieldAt at h
+  split at h
+  · rename_i d P hd hP
+    split at h
+    · rename_i hs
+      cases hw : writeAt bs (base + P) x with
+      | ok r =>
+        rw [hw] at h
+        simp only [Res.bind] at h
+        cases h
+        refine ⟨d, P, hd, hP, hs, rfl, writeAt_length hw, ?_, fun a k hk => writeAt_frame hw a k hk⟩
+        unfold writeAt at hw
+        split at hw
+        · cases hw
+          rw [List.append_assoc, List.drop_append_of_le_length (by simp; omega)]
+          simp
+        · cases hw
+      | err e => rw [hw] at h; simp [Res.bind] at h
+      | fault f => rw [hw] at h; simp [Res.bind] at h
+    · cases h
+  · cases h
+
+/-- **C14 (field writes through the accessors).** Writing sized field `i` of an unsized struct (`self.field = v`) or of the active
+variant of an unsized enum (`*binding = v` through `as_mut()`) — the model of what the generated accessors do, compared with the
+real accessors on every `setfield` step of the operation histories — keeps the length of the slice, leaves the new image at the
+field's walker position, and changes **no other byte**: in particular no byte of any sibling field `j ≠ i`, sized or not, and nothing
+after the value. A `setfield` addressed at a variant that is not the active one changes nothing at all. -/
+theorem C14_setField_frame (t : Ty) (v i : Nat) (x : Bytes) (s : Slice) (o : OpOut)
+    (h : applyOp (.setField v i x) t s = .ok o) :
+    o.bytes.length = s.bytes.length ∧
+    (o.ret = .novariant → o.bytes = s.bytes) ∧
+    (o.ret = .ok → ∃ P, (o.bytes.drop P).take x.length = x ∧
+      ∀ a k, (a + k ≤ P ∨ P + x.length ≤ a) → (o.bytes.drop a).take k = (s.bytes.drop a).take k) := by
+  cases t with
+  | ustruct fs last =>
+    simp only [applyOp] at h
+    obtain ⟨d, P, _, _, _, hret, hlen, himg, hfr⟩ := setFieldAt_frame _ 0 i x s.bytes o h
+    refine ⟨hlen, ?_, ?_⟩
+    · intro hn; rw [hret] at hn; cases hn
+    · intro _; exact ⟨0 + P, himg, hfr⟩
+  | uenum tag vs =>
+    simp only [applyOp] at h
+    cases ht : tag.readU s with
+    | ok tv =>
+      rw [ht] at h
+      simp only [Res.bind] at h
+      split at h
+      · cases h
+        refine ⟨rfl, ?_, ?_⟩
+        · intro _; rfl
+        · intro hn; cases hn
+      · obtain ⟨d, P, _, _, _, hret, hlen, himg, hfr⟩ := setFieldAt_frame _ _ i x s.bytes o h
+        refine ⟨hlen, ?_, ?_⟩
+        · intro hn; rw [hret] at hn; cases hn
+        · intro _; exact ⟨_, himg, hfr⟩
+    | err e => rw [ht] at h; simp [Res.bind] at h
+    | fault f => rw [ht] at h; simp [Res.bind] at h
+  | prim _ _ => simp [applyOp] at h
+  | bool => simp [applyOp] at h
+  | arr _ _ => simp [applyOp] at h
+  | sstruct _ => simp [applyOp] at h
+  | cenum _ _ => simp [applyOp] at h
+  | senum _ _ => simp [applyOp] at h
+  | vec et l =>
+    simp only [applyOp] at h
+    cases hg : vecGeo et.dict l s.len with
+    | ok g =>
+      rw [hg] at h; simp only [Res.bind] at h
+      cases hr : l.readU s with
+      | ok len => rw [hr] at h; simp [Res.bind, vecOp] at h
+      | err e => rw [hr] at h; simp [Res.bind] at h
+      | fault f => rw [hr] at h; simp [Res.bind] at h
+    | err e => rw [hg] at h; simp [Res.bind] at h
+    | fault f => rw [hg] at h; simp [Res.bind] at h
+  | str l =>
+    simp only [applyOp] at h
+    cases hg : strGeo l s.len with
+    | ok g =>
+      rw [hg] at h; simp only [Res.bind] at h
+      cases hr : l.readU s with
+      | ok len => rw [hr] at h; simp [Res.bind, vecOp] at h
+      | err e => rw [hr] at h; simp [Res.bind] at h
+      | fault f => rw [hr] at h; simp [Res.bind] at h
+    | err e => rw [hg] at h; simp [Res.bind] at h
+    | fault f => rw [hg] at h; simp [Res.bind] at h
+  | flex _ _ => simp [applyOp] at h
+
+def outOf : Res OpOut → Option (OpRet × Bytes)
+  | .ok o => some (o.ret, o.bytes)
+  | _ => none
+/-- non-vacuity: `{ a: u8, b: u16, v: FlatVec<u8, u8> }`, field `b` written at its C offset 2; a `u8`-tagged enum `{ A(u8, u16), B }`
+addressed at its active and at another variant -/
+example : outOf (applyOp (.setField 0 1 [9, 9]) (.ustruct [.prim 1 1, .prim 2 2] (.vec (.prim 1 1) ⟨1, 1, false⟩)) ⟨0, [7, 0, 1, 2, 0, 0]⟩)
+    = some (.ok, [7, 0, 9, 9, 0, 0]) := by decide
+example : outOf (applyOp (.setField 0 1 [9, 9]) (.uenum ⟨1, 1, false⟩ [[.prim 1 1, .prim 2 2], []]) ⟨0, [0, 0, 5, 0, 1, 2]⟩)
+    = some (.ok, [0, 0, 5, 0, 9, 9]) := by decide
+example : outOf (applyOp (.setField 0 1 [9, 9]) (.uenum ⟨1, 1, false⟩ [[.prim 1 1, .prim 2 2], []]) ⟨0, [1, 0, 5, 0, 1, 2]⟩)
+    = some (.novariant, [1, 0, 5, 0, 1, 2]) := by decide
 end FV.Props
